@@ -137,6 +137,17 @@ func recursivePackages(thorough bool) []*pkgSpec {
 	p.addTyped("recursive", "pubnode(recursive=true)", typeSpec{name: "PNode", decl: "type PNode struct {\n\tV    string\n\tNext *PNode\n}", tcs: all, kinds: []string{"recursive-list"}}, all, recTrue)
 	out = append(out, p)
 
+	// recursive and generic; the type parameters first used in and out of declaration order
+	p = &pkgSpec{Name: "recursive/generic"}
+	gmark := func(t *target) { t.Counts = append(t.Counts, "directive/plain", "generic/recursive") }
+	p.addTyped("recursive", "generic-list[A,B]", typeSpec{name: "RG", decl: "type RG[A, B any] struct {\n\tav   A\n\tbv   B\n\tnext *RG[A, B]\n}", derive: "RG[any, any]", tcs: all, tparams: []string{"A", "B"}, kinds: []string{"recursive-generic"}}, all, gmark)
+	p.addTyped("recursive", "generic-list[A,B]-params-used-in-reverse", typeSpec{name: "RH", decl: "type RH[A, B any] struct {\n\tbv   B\n\tav   A\n\tnext *RH[A, B]\n}", derive: "RH[any, any]", tcs: all, tparams: []string{"A", "B"}, kinds: []string{"recursive-generic"}}, all, gmark)
+	// B occurs in a field type only as a type argument of the self reference: that counts as
+	// "used" (an instance parameter for it is allowed, and so is its absence)
+	p.addTyped("recursive", "generic-list[A,B]-B-unused", typeSpec{name: "RP", decl: "type RP[A, B any] struct {\n\tav   A\n\tnext *RP[A, B]\n}", derive: "RP[any, any]", tcs: all, tparams: []string{"A", "B"}, kinds: []string{"recursive-generic"}}, all, gmark)
+	p.addTyped("recursive", "generic-tree[T]", typeSpec{name: "RT", decl: "type RT[T any] struct {\n\tv     T\n\tleft  *RT[T]\n\tright *RT[T]\n}", derive: "RT[any]", tcs: all, tparams: []string{"T"}, kinds: []string{"recursive-generic"}}, all, gmark)
+	out = append(out, p)
+
 	p = &pkgSpec{Name: "recursive/list-mutual"}
 	p.addTyped("recursive", "link", typeSpec{name: "Link", decl: "type Link struct {\n\tv    string\n\tnext *Link\n}", tcs: all, kinds: []string{"recursive-list"}}, all, plain)
 	p.addTyped("recursive", "mutual-a", typeSpec{name: "MA", decl: "type MA struct {\n\tv int\n\tb *MB\n}", tcs: all, deps: []string{"MB"}, kinds: []string{"mutually-recursive"}}, all, plain)
@@ -503,6 +514,125 @@ func EqSlice[T any](e fp.Eq[T]) fp.Eq[[]T] {
 	return out
 }
 
+// crossPackages: a local instance function of the derived typeclass asks for an instance of
+// ANOTHER typeclass (README section 7: EqSeq[T](..., ordT fp.Ord[T])); the documented
+// precedence also governs that second lookup. The overriding Ord / Eq instances of the element
+// type are recognisably different, and what the derived Eq / Hashable / Show / Monoid computes
+// depends on which one was handed to the local function.
+const crossLocal = `// @fp.ImportGiven
+var _ ord.Derives[fp.Ord[any]]
+
+// @fp.ImportGiven
+var _ eq.Derives[fp.Eq[any]]
+
+func sortedBy[T any](s fp.Seq[T], o fp.Ord[T]) []T {
+	c := append([]T(nil), s...)
+	sort.SliceStable(c, func(i, j int) bool { return o.Less(c[i], c[j]) })
+	return c
+}
+
+// equal as multisets of ordT-equivalence classes
+func EqSeq[T any](ordT fp.Ord[T]) fp.Eq[fp.Seq[T]] {
+	return eq.New(func(a, b fp.Seq[T]) bool {
+		if len(a) != len(b) {
+			return false
+		}
+		x, y := sortedBy(a, ordT), sortedBy(b, ordT)
+		for i := range x {
+			if ordT.Compare(x[i], y[i]) != 0 {
+				return false
+			}
+		}
+		return true
+	})
+}
+
+func HashableSeq[T any](ordT fp.Ord[T]) fp.Hashable[fp.Seq[T]] {
+	return hash.New(EqSeq(ordT), func(a fp.Seq[T]) uint32 { return uint32(len(a)) })
+}
+
+func ShowSeq[T any](ordT fp.Ord[T]) fp.Show[fp.Seq[T]] {
+	return show.New(func(a fp.Seq[T]) string {
+		var parts []string
+		for _, v := range sortedBy(a, ordT) {
+			parts = append(parts, fmt.Sprint(v))
+		}
+		return "<sorted:" + strings.Join(parts, ",") + ">"
+	})
+}
+
+// appends the elements of b that are not eqT-equal to an element of a
+func MonoidSeq[T any](eqT fp.Eq[T]) fp.Monoid[fp.Seq[T]] {
+	return monoid.New(func() fp.Seq[T] { return nil }, func(a, b fp.Seq[T]) fp.Seq[T] {
+		r := append(fp.Seq[T](nil), a...)
+		for _, y := range b {
+			dup := false
+			for _, x := range a {
+				if eqT.Eqv(x, y) {
+					dup = true
+				}
+			}
+			if !dup {
+				r = append(r, y)
+			}
+		}
+		return r
+	})
+}
+
+`
+
+func crossPackages() []*pkgSpec {
+	var out []*pkgSpec
+	for _, v := range []struct {
+		label     string
+		work, typ bool
+	}{{"none", false, false}, {"working", true, false}, {"type-package", false, true}, {"both", true, true}} {
+		p := &pkgSpec{Name: "precedence/cross-typeclass-" + v.label, WExtra: crossLocal}
+		semName, semStr := "", ""
+		if v.typ {
+			semName = "P"
+			p.TpExtra = markerDecl(Ord, "OrdName", "Name", "P", false) + markerDecl(Eq, "EqName", "Name", "P", false)
+		}
+		if v.work {
+			semName, semStr = "W", "W"
+			p.WExtra += markerDecl(Ord, "OrdTpName", "tp.Name", "W", false) + markerDecl(Eq, "EqTpName", "tp.Name", "W", false) +
+				markerDecl(Ord, "OrdString", "string", "W", false) + markerDecl(Eq, "EqString", "string", "W", false)
+		}
+		over := func(seq string) string {
+			m := map[string]string{tpNameKey: semName, "string": semStr, "github.com/csgura/fp.Seq": seq}
+			var parts []string
+			for _, k := range sortedKeys(m) {
+				if m[k] != "" {
+					parts = append(parts, fmt.Sprintf("%q: %q", k, m[k]))
+				}
+			}
+			return "map[string]string{" + strings.Join(parts, ", ") + "}"
+		}
+		for _, sh := range []struct{ label, name, decl string }{
+			{"int+seq[name]", "XN", "type XN struct {\n\tf1 int\n\tf2 fp.Seq[tp.Name]\n}"},
+			{"seq[string]+int", "XS", "type XS struct {\n\tf1 fp.Seq[string]\n\tf2 int\n}"},
+		} {
+			p.addTyped("precedence", "cross-typeclass/"+v.label+"/"+sh.label, typeSpec{name: sh.name, decl: sh.decl, tcs: only(Eq, Hashable, Monoid, Show)}, allTC(), func(t *target) {
+				switch t.TC {
+				case Eq, Hashable:
+					t.Opt = fmt.Sprintf("lawlib.Opt{Over: %s}", over("S"))
+					t.Counts = append(t.Counts, "cross-typeclass/"+tcs[t.TC].Name+"-needs-Ord")
+				case Show:
+					t.Opt = fmt.Sprintf("lawlib.Opt{Over: %s, Cross: \"sorted\"}", over("X"))
+					t.Counts = append(t.Counts, "cross-typeclass/Show-needs-Ord")
+				case Monoid:
+					t.Opt = fmt.Sprintf("lawlib.Opt{Over: %s, Cross: \"dedupe\"}", over("X"))
+					t.Counts = append(t.Counts, "cross-typeclass/Monoid-needs-Eq")
+				}
+				t.Counts = append(t.Counts, "placement/cross-typeclass/"+v.label)
+			})
+		}
+		out = append(out, p)
+	}
+	return out
+}
+
 // ---------------------------------------------------------------- @fp.ImportGiven
 
 func givenPackages(thorough bool) []*pkgSpec {
@@ -628,6 +758,7 @@ func allPackages(thorough bool) []*pkgSpec {
 	out = append(out, recursivePackages(thorough)...)
 	out = append(out, namedPackages(thorough)...)
 	out = append(out, precedencePackages(thorough)...)
+	out = append(out, crossPackages()...)
 	out = append(out, givenPackages(thorough)...)
 	out = append(out, rejectedPackage())
 	if thorough {
